@@ -237,8 +237,11 @@ namespace OP2Utility::Archive
 		clmFileWriter.Write(indexEntries);
 
 		// Copy files into the archive
+		// Note: Each stream is positioned at the start of its wave data. Copy only the data chunk, since
+		// other chunks may follow it. The slice also verifies the recorded length lies within the file
 		for (std::size_t i = 0; i < header.packedFilesCount; ++i) {
-			clmFileWriter.Write(*filesToPackReaders[i]);
+			auto waveData = filesToPackReaders[i]->Slice(indexEntries[i].dataLength);
+			clmFileWriter.Write(waveData);
 		}
 	}
 
